@@ -4,7 +4,7 @@ def run(ctx):
     return standard(ctx,
         props=[("Props.C01", ["c01_sound", "c01_sufficient_iff", "c01_password_only_refused", "c01_password_session_401",
                               "c01_everything_else_refused", "c01_refused_is_error", "c01_complete_session",
-                              "c01_complete_password", "c01_complete_cert", "c01_strict_refuted"])],
+                              "c01_complete_password", "c01_complete_cert", "c01_strict_refuted", "c01_old_refuted"])],
         harness=("TestVerif_C01", ["kmd/common.go", "kmd/creds.go", "kmd/consts.go", "kmd/c01.go"]),
         obl=("Obl_C01.v", ["c01_bits", "c01_bits_are_factors", "c01_method_strings", "c01_route", "c01_password_only"]),
         cases=("CasesC01.v", [("c01_mismatches", "result class of every enumerated request (issued for whom / error / neither) = model certgen, recomputed by Coq from the case index"),
